@@ -701,6 +701,10 @@ impl Family for C13 {
         s
     }
 
+    fn realtime(case: &str) -> bool {
+        parse_case(case).map_or(false, |c| c.flavor != 0)
+    }
+
     fn run(case: &str) -> Outcome {
         let c = match parse_case(case) {
             Some(c) => c,
